@@ -31,8 +31,8 @@ type shape struct {
 
 var scalarsAll = []string{"bool", "int", "int8", "int16", "int32", "int64", "uint", "uint8", "uint16", "uint32", "uint64", "float32", "float64", "string", "byte"}
 var scalarsQuick = []string{"bool", "int8", "int32", "int64", "uint16", "uint64", "float32", "float64", "string", "byte"}
-var named = []string{"Inner", "NInt", "NUint", "NFloat", "NBool", "NStr", "NSlice", "NMap", "NPtrStruct", "Plain", "Mid", "NumBox"}
-var namedQuick = []string{"Inner", "NInt", "NStr", "NSlice", "NMap", "Mid", "NumBox"}
+var named = []string{"Inner", "NInt", "NUint", "NFloat", "NBool", "NStr", "NSlice", "NMap", "NPtrStruct", "Plain", "Mid", "NumBox", "Deep"}
+var namedQuick = []string{"Inner", "NInt", "NStr", "NSlice", "NMap", "Mid", "NumBox", "Deep"}
 var keysAll = []string{"string", "bool", "int", "int8", "int16", "int32", "int64", "uint", "uint8", "uint16", "uint32", "uint64", "float32", "float64", "byte", "NInt", "NStr", "*int32", "*string", "*float64"}
 var keysQuick = []string{"string", "int", "int32", "uint64", "float64", "bool", "byte", "NStr", "*int32"}
 
@@ -64,6 +64,12 @@ type Mid struct {
 type NumBox struct {
 	L []float64
 	M map[int32]int32
+}
+
+// collections reachable only through two struct levels (by value and behind a pointer)
+type Deep struct {
+	B  NumBox
+	PB *NumBox
 }
 
 type NInt int32
@@ -259,6 +265,7 @@ func phaseGenerate(root, tier string, seed uint64) {
 		{Name: "Plain", Kind: "helper", Expr: "struct", Family: "helper"},
 		{Name: "Mid", Kind: "helper", Expr: "struct", Family: "helper"},
 		{Name: "NumBox", Kind: "helper", Expr: "struct", Family: "helper"},
+		{Name: "Deep", Kind: "helper", Expr: "struct", Family: "helper"},
 		{Name: "NSlice", Kind: "helper", Expr: "[]int32", Family: "helper"},
 		{Name: "NMap", Kind: "helper", Expr: "map[string]int32", Family: "helper"},
 	}
